@@ -3,6 +3,7 @@ package larking
 import (
 	"context"
 	"errors"
+	"fmt"
 	"io"
 	"net"
 
@@ -23,6 +24,7 @@ type streamWS struct {
 	header     metadata.MD
 	trailer    metadata.MD
 	params     params
+	maxRecv    int // maximum receive message size
 	recvN      int
 	sendN      int
 	sentHeader bool
@@ -96,6 +98,10 @@ func (s *streamWS) RecvMsg(m interface{}) error {
 				return io.EOF // the client ended the stream cleanly
 			}
 			return err
+		}
+
+		if s.maxRecv > 0 && len(b) > s.maxRecv {
+			return fmt.Errorf("websocket: received message larger than max (%d vs. %d)", len(b), s.maxRecv)
 		}
 
 		// TODO: contentType check?
